@@ -23,11 +23,14 @@ SonarPart(tag, p) ==
 
 SonarDoc(d) == [issues |-> SonarPart("i", d[1]), hotspots |-> SonarPart("h", d[2])]
 
+\* a SARIF result may list several locations; one in ANOTHER file makes it a finding of that file too
+OtherFile(f) == IF f = "f1" THEN "f2" ELSE "f1"
 SarifRun(r, ri) ==
   [tool |-> r[1],
-   results |-> [i \in 1..Len(r[2]) |->
-        LET e == SarifEntries[r[2][i]] IN
-        [rule |-> e.rule, file |-> e.file, hasRegion |-> TRUE, id |-> <<ri, i>>]]]
+   results |-> FlattenSeq([i \in 1..Len(r[2]) |->
+        LET e == SarifEntries[r[2][i]]
+            rec(f) == [rule |-> e.rule, file |-> f, hasRegion |-> TRUE, id |-> <<ri, i>>]
+        IN IF e.also = "otherfile" THEN <<rec(e.file), rec(OtherFile(e.file))>> ELSE <<rec(e.file)>>])]
 SarifDoc(d) == [ri \in 1..Len(d) |-> SarifRun(d[ri], ri)]
 
 DojoDoc(d, fi) == [i \in 1..Len(d) |-> LET e == DojoEntries[d[i]] IN [rule |-> e.rule, file |-> e.file, id |-> <<fi, i>>]]
